@@ -46,7 +46,7 @@ ORunning  == [k |-> "running", v |-> NoneV, e |-> ""]
 Ev(k, v)  == [k |-> k, v |-> v]
 
 NewGen(b) == [ks |-> << SeqF(Bodies[b]) >>, comp |-> Norm, st |-> "created", how |-> "",
-              inbox |-> NoneV, sub |-> 0, loc |-> 0]
+              inbox |-> NoneV, sub |-> 0, par |-> 0, loc |-> 0]
 
 VARIABLES gens,      \* generator instances; 1..NTop are the driver's, the others are yield-from children
           top,       \* templates of the top-level instances
@@ -64,8 +64,8 @@ RECURSIVE Inner(_, _)
 Inner(G, g) == IF G[g].sub = 0 THEN g ELSE Inner(G, G[g].sub)
 RECURSIVE Chain(_, _)
 Chain(G, g) == IF G[g].sub = 0 THEN {g} ELSE {g} \cup Chain(G, G[g].sub)
-\* parent of generator c in a delegation chain (0 if none)
-Parent(G, c) == IF \E p \in 1..Len(G) : G[p].sub = c THEN CHOOSE p \in 1..Len(G) : G[p].sub = c ELSE 0
+\* parent of generator c in a delegation chain (0 if none): recorded when the child is created
+Parent(G, c) == G[c].par
 SetSt(G, S, st) == [i \in 1..Len(G) |-> IF i \in S THEN [G[i] EXCEPT !.st = st] ELSE G[i]]
 PreOf(G, g) == IF G[g].st = "done" THEN "done-" \o G[g].how ELSE G[g].st
 
@@ -148,7 +148,7 @@ StepF(s) ==
        [] x.k = "ret"   -> Go([G EXCEPT ![c].ks = rest, ![c].comp = [t |-> "ret", v |-> IntV(x.v)]])
        [] x.k = "raise" -> Go([G EXCEPT ![c].ks = rest, ![c].comp = [t |-> "exc", v |-> StrV("KeyError")]])
        [] x.k = "yf"    -> \* create the child; it is started with next(), whatever was sent to the parent before
-                           Go(Append([G EXCEPT ![c].ks = rest, ![c].sub = Len(G) + 1], [NewGen(x.b) EXCEPT !.st = "running"]))
+                           Go(Append([G EXCEPT ![c].ks = rest, ![c].sub = Len(G) + 1], [NewGen(x.b) EXCEPT !.st = "running", !.par = c]))
        [] x.k = "inl"   -> Go([G EXCEPT ![c].ks = Append(Append(rest, [k |-> "inlf"]), SeqF(x.body))])
 
 \* run the started call to its end (suspension, return or exception); MaxMicro bounds the number of small steps
@@ -173,16 +173,17 @@ Completed(h) == h.out.k # "running"
 
 \* an exhausted generator stays exhausted: once a call ended with StopIteration or an exception raised
 \* by the body, every later call raises StopIteration (value None) and runs nothing
-DoneAbsorbing == \A i \in 1..Len(hist) : \A j \in 1..Len(hist) :
-   (i < j /\ hist[i].g = hist[j].g /\ Completed(hist[j])
+\* (hist only grows, so it suffices to state it for the latest call j)
+DoneAbsorbing == LET j == Len(hist) IN \A i \in 1..(j - 1) :
+   (hist[i].g = hist[j].g /\ Completed(hist[j])
       /\ hist[i].out.k \in {"stop", "exc"} /\ ~(hist[i].pre = "created" /\ hist[i].sent # NoneV))
       => (hist[j].out = OStop(NoneV) /\ hist[j].log = <<>> /\ hist[j].pre \in {"done-ret", "done-exc"})
 DoneStatus == \A g \in 1..Len(gens) : gens[g].st = "done" => gens[g].ks = <<>>
 
 \* send(non-None) to a just-created generator is TypeError and the generator stays just-created
-SendCreated == \A i \in 1..Len(hist) :
-   (hist[i].pre = "created" /\ hist[i].sent # NoneV)
-      => (hist[i].out = OExc("TypeError") /\ hist[i].log = <<>>)
+SendCreated == LET i == Len(hist) IN
+   (i > 0 /\ hist[i].pre = "created" /\ hist[i].sent # NoneV)
+      => (hist[i].out = OExc("TypeError") /\ hist[i].log = <<>> /\ gens[hist[i].g].st = "created")
 
 \* laziness: nothing of a body runs before the first next(); between calls nothing runs
 Untouched(g) == gens[g].ks = << SeqF(Bodies[top[g]]) >> /\ gens[g].loc = 0 /\ gens[g].sub = 0
